@@ -49,13 +49,14 @@ def compute_dmdelays(
         If dm is a scalar, returns a 1D array of delays. If dm is an array,
         returns a 2D array with shape ``(len(dm), len(freqs))``.
     """
+    scalar_dm = np.ndim(dm) == 0
     freqs = np.atleast_1d(freqs).astype(np.float32)
     dm = np.atleast_1d(dm)[:, np.newaxis].astype(np.float32)
     delays = dm * DM_CONSTANT_LK * ((freqs**-2) - (ref_freq**-2))
     if in_samples:
         delays = (delays / tsamp).round().astype(np.int32)
-    # A single channel and a scalar DM would otherwise squeeze to a 0-d array
-    return np.atleast_1d(delays.squeeze())
+    # 1-D (nchans) for a scalar DM, 2-D (ndms, nchans) for an array of DMs
+    return delays[0] if scalar_dm else delays
 
 
 def compute_dmsmearing(
